@@ -1062,6 +1062,33 @@ def len_cmp(so):
 
 # ---- C09 ----------------------------------------------------------------------------------------------------------------------------------------
 
+def lossless_variants(chk, P, prefix):
+    """The blocking / fallible / async send variants never discard: none of them (nor anything they reach inside the crate) calls the
+    truncating Sender::send or Channel::clear.  They enqueue through try_send / send_or_wait or hand the item back."""
+    def f():
+        entry = []
+        for k in ("emit_batcher::sync::blocking_send", "emit_batcher::tokio::blocking_send", "emit_batcher::tokio::send",
+                  S + "send_or_wait", S + "try_send"):
+            if P.has_body(k):
+                entry.append(P.body(k))
+        if len(entry) < 3:
+            raise mir.AnchorMissing("the lossless send variants (found %d)" % len(entry))
+        seen, pred = P.reachable(entry, follow=("direct", "closure"))
+        n = 0
+        for k in sorted(seen):
+            x = P.bodies[k]
+            if x.crate != "emit_batcher":
+                continue
+            n += 1
+            for c in x.calls(normal_only=True):
+                full = c.callee.get("path") or ""
+                if (full.startswith(S + "send") and c.callee.get("name") == "send") or (c.callee.get("trait") == CH and c.callee.get("name") == "clear"):
+                    return False, ("%s calls %s at %s: a send variant that promises to wait or hand the item back would discard the whole pending "
+                                   "queue when the channel is full" % (x.key, c.callee.get("full") or full, c.loc)), [], c.loc
+        return True, "", ["%d bodies reachable from %d lossless entry points; none truncates" % (n, len(entry))]
+    chk.ob("%s.R2:lossless-variants" % prefix, "blocking, fallible and async sends never go through the truncating send", f)
+
+
 def send_rules(chk, P, prefix):
     def send():
         b = P.body(S + "send")
@@ -1095,6 +1122,20 @@ def send_rules(chk, P, prefix):
             return False, "an item can be pushed without passing the capacity test", [], pushes[0].loc
         if not mir.o_is_param(b.origin(pushes[0].args[1]), idx=2):
             return False, "send pushes %s" % o_str(b.origin(pushes[0].args[1])), [], pushes[0].loc
+        # once past the capacity test the item is always enqueued: no path from the test returns without the push (the only way an
+        # accepted item disappears is a later, counted truncation)
+        closed_edges = set()
+        for sbb, t in b.switches():
+            a = atom(b, b.switch_origin(sbb))
+            if a[0] == "is_open":
+                for v, n in [(v, n) for v, n in t["targets"]] + [("otherwise", t["otherwise"])]:
+                    truth = (str(v) != "0")           # the edge taken when the tested expression is true
+                    if truth != a[1]:                  # ... i.e. the edge on which is_open is false
+                        closed_edges.add((sbb, n))
+        live = b.reachable_from(bb, removed_edges=closed_edges, removed_blocks={pushes[0].bb})
+        if any(e in live for e in b.return_blocks()):
+            return False, ("send can return after the capacity test without pushing the item (a path from %s:%s skips the push at %s): the item "
+                           "is dropped without a truncation being counted" % (b.file, b.blocks[bb]["term"].get("line"), pushes[0].loc)), [], pushes[0].loc
         # no blocking primitive in send
         for c in b.calls(normal_only=True):
             if c.callee.get("name") in ("sleep", "wait", "wait_timeout", "block_on", "join", "recv", "park", "wait_until_empty"):
